@@ -7,7 +7,7 @@ area = sys.argv[1]
 src = os.path.join(os.environ.get("BENIGN_SRC", "/tmp/agentout_b3"), area)
 NPROC = os.environ.get("CONFIRM_N", "5")
 ids = sorted(d for d in os.listdir(src) if os.path.exists(os.path.join(src, d, "patch.diff")))
-wt = f"/tmp/wt/confirmb_{area}"
+wt = f"/tmp/wt/confirmb_{area}_{os.getpid()}"
 subprocess.run(["git", "-C", "/repo", "worktree", "remove", "--force", wt], capture_output=True)
 subprocess.run(["git", "-C", "/repo", "worktree", "add", "-q", "--detach", wt, "HEAD"], check=True)
 env = dict(os.environ, PYTHONPATH=f"{wt}/src", HYPOTHESIS_PROFILE="ci")
